@@ -239,8 +239,9 @@ func execAttack(w *world.World, s Step) bool {
 			// forms that are accepted by design (another valid DH value in a DH-Key) only make
 			// sense when they replace the genuine message
 			kept := vs[:0]
+			accepting := otr3.VerifProject(p.Conv).AKE.State == "awDHKey"
 			for _, v := range vs {
-				if v.name != "gy-other" {
+				if v.name != "gy-other" || !accepting {
 					kept = append(kept, v)
 				}
 			}
@@ -263,12 +264,47 @@ func execAttack(w *world.World, s Step) bool {
 		for _, v := range vs {
 			// a form that still is a well-formed DH-Key with another value in range is accepted by
 			// design (first DH-Key wins): it only makes sense as a replacement of the genuine one
-			if ab := w.Abs([][]byte{v.raw}, p.Peer, p.Name); ab["t"] == "DHK" {
+			if ab := w.Abs([][]byte{v.raw}, p.Peer, p.Name); ab["t"] == "DHK" && otr3.VerifProject(p.Conv).AKE.State == "awDHKey" {
 				if gy, ok := ab["gy"].(int); ok && gy != -2 && gy != wm.Abs["gy"] {
 					continue
 				}
 			}
 			w.ReceiveAttack(p, [][]byte{v.raw}, v.name)
+		}
+		// tampered forms of messages that were delivered earlier, arriving now (in a later state)
+		earlier := 0
+		for k := len(w.Wire) - 1; k >= 0 && earlier < 3; k-- {
+			old := w.Wire[k]
+			if old.To != p.Name || old == wm || old.Abs["t"] == "G" || old.Abs["t"] == "Q" || old.Abs["t"] == "P" || old.Abs["t"] == "E" {
+				continue
+			}
+			if _, isAtk := old.Abs["atkname"]; isAtk {
+				continue
+			}
+			ofull, err := ref.Reassemble(old.Raw)
+			if err != nil || !bytes.HasPrefix(ofull, []byte("?OTR:")) {
+				continue
+			}
+			earlier++
+			ovs := variants(ofull, rng, false, 1)
+			rng.Shuffle(len(ovs), func(i, j int) { ovs[i], ovs[j] = ovs[j], ovs[i] })
+			n := 0
+			accepting := otr3.VerifProject(p.Conv).AKE.State == "awDHKey"
+			for _, v := range ovs {
+				if n >= 4 && v.name != "gy-other" {
+					continue
+				}
+				if strings.HasPrefix(v.name, "st") || v.name == "tags-swapped" {
+					continue
+				}
+				// a DH-Commit carries no authentication: one that still parses starts (or replaces) an
+				// exchange by design, and so does a DH-Key while one is awaited
+				if ab := w.Abs([][]byte{v.raw}, p.Peer, p.Name); (ab["t"] == "DHK" && accepting) || ab["t"] == "DHC" {
+					continue
+				}
+				w.ReceiveAttack(p, [][]byte{v.raw}, "late/"+v.name)
+				n++
+			}
 		}
 		// unauthenticated plaintext lines (plain and whitespace-tagged) slipped into the conversation
 		w.Text(7777)
